@@ -864,6 +864,11 @@ func runCmdScenario(c *core.Ctx, n *cmdNode, s *scenario) cmdRun {
 		}
 		return eval.S("error")
 	})
+	// anything the command layer itself prints (notes on stderr) is accepted and ignored
+	okWrite := func(eval.Value, []eval.Value) eval.Value { return eval.Tuple{eval.K(0), eval.Nil{}} }
+	for _, name := range []string{"fmt.Fprintln", "fmt.Fprint", "fmt.Fprintf", "io.WriteString", "(*os.File).WriteString", "(*os.File).Write", "(io.Writer).Write", "fmt.Println", "fmt.Printf", "fmt.Print"} {
+		ext(name, okWrite)
+	}
 	closes := 0
 	ext("(*os.File).Close", func(recv eval.Value, _ []eval.Value) eval.Value {
 		closes++
